@@ -67,9 +67,19 @@ class Ctx:
         while cur is not None:
             res = cur["res"]
             if res is not None:
-                gs.extend(ev.guards(res, cur["bb"], cur["body"]))
+                own = ev.guards(res, cur["bb"], cur["body"])
+                if cur.get("subst"):
+                    # the entry stands for one alternative of a join: its guards speak about that alternative
+                    from sym import _subst
+                    ph, alt = cur["subst"]
+                    own = [(_subst(c, ph, alt) if isinstance(c, tuple) else c, r) for c, r in own]
+                gs.extend(own)
             for g in cur.get("extra_guards", []) or []:
                 gs.append((g, ("eq", 1)))
+            for origin, jb in cur.get("extra_edges", []) or []:
+                # the entry stands for the paths that entered join block jb over the edge origin -> jb
+                if res is not None:
+                    gs.extend(ev.guards_edge(res, origin, jb, cur["body"]))
             cur = cur.get("parent")
         return gs
 
